@@ -87,6 +87,21 @@ func (ro *RedisOutput) bisyncRdbTargetKey(key []byte) []byte {
 	return targetKey
 }
 
+// bisyncRdbTargetReserved reports whether the key an entry is replayed under lies in a
+// namespace the tool keeps for itself although the snapshot's key does not: with
+// replace-hashtag "{redis-gunyu-bisync:}x" is written as "redis-gunyu-bisync:x". The
+// filters of the replay loop look at the snapshot's key, so such an entry would be written
+// over the link's own control keys (and may give one of them an expiry, which the clean-up
+// of a namespace relies on never being the case). It is withheld like a control key found
+// in the snapshot.
+func (ro *RedisOutput) bisyncRdbTargetReserved(key []byte) bool {
+	if !ro.cfg.ReplaceHashTag {
+		return false
+	}
+	target := string(ro.bisyncRdbTargetKey(key))
+	return isBisyncNamespaceKey(target) || strings.HasPrefix(target, config.NamespacePrefixKey)
+}
+
 // bisyncRdbTTLms converts an absolute RDB expiration timestamp into the
 // relative TTL expected by RESTORE and PEXPIRE.
 func bisyncRdbTTLms(expireAt uint64) uint64 {
@@ -762,7 +777,8 @@ func (ro *RedisOutput) rdbReplayBisync(ctx context.Context, runID string, fullSy
 				// links; the output filter of a bisync link does not list them (see NewRedisOutput)
 				if ro.outFilter.FilterKey(string(e.Key)) ||
 					ro.outFilter.FilterSlot(string(e.Key)) ||
-					isBisyncNamespaceKey(string(e.Key)) {
+					isBisyncNamespaceKey(string(e.Key)) ||
+					ro.bisyncRdbTargetReserved(e.Key) {
 					filterOut = true
 				}
 			}
